@@ -132,6 +132,16 @@ add("C16", "TLC exhaustive on Descent.tla (minimiser loop + L-BFGS ring buffers)
     "recomputed at every point returned with success; L_BFGS and VL_BFGS are fed the same histories and must return the same direction.",
     TRUST + "Wolfe slack 1e-10; facts within 1e-12 of their threshold are left to TLC.")
 
+add("C01", "TLC exhaustive on OpAlgebra.tla (operator expressions as SSA programs with exact dyadic Gaussian matrices) + replay of every emitted program into nifty.cl",
+    "Operator expressions (sum, difference, chain, scalar factor, negation, adjoint, inverse, sandwich) over a library of 40 leaves with exact matrices "
+    "(scalings by 1, 2, -1, 1/2, i, 1+i on three domains; full and partial-space real and complex diagonals; non-invertible matrix operators; null; "
+    "Hartley/FFT; block-diagonal operators with and without left-out keys) are enumerated by TLC as SSA programs; every state carries the exact TIMES and "
+    "inverse matrices, the capability given by the rule of the statement and a PSD flag, and TLC checks inverse law, capability law, shapes, the Z2xZ2 "
+    "table law and Hermitian-PSD law. Every program (quick: all <=2-slot + 800 simulated 3-slot; thorough: all <=3-slot + 6000 simulated 4-5-slot) is "
+    "built through the public API and compared: dense matrix in every advertised mode for complex and real input, no lost capability, refusal of "
+    "non-advertised modes, untouched input.",
+    TRUST + "domains of <=4 pixels; an expression that advertises more than the rule after simplification is accepted if it acts correctly.")
+
 
 def main():
     props = [json.loads(l) for l in open(os.path.join(HERE, "properties.jsonl"))]
